@@ -169,10 +169,28 @@ structure Oracles where
   logFault : Bool              -- the telemetry writer raises
 deriving DecidableEq, Repr
 
+/-- Value of the attribute `ctx.now_iso`: derived by `run_turn`'s head from an int `now_ms`
+(`_iso_from_ms`), a caller-supplied string, or a caller-supplied non-string. -/
+inductive IsoAttr
+  | derived (ms : Int)
+  | lit (s : Str)
+  | nonstr
+deriving DecidableEq, Repr
+
+/-- The timestamp `_now_iso_from_ctx` returns: the head-derived ISO string of `ms`, the caller's
+string, or the writer's own epoch fallback `1970-01-01T00:00:{ms//1000:02d}.{ms%1000:03d}Z`.
+Nothing else (no wall clock) can appear. -/
+inductive Ts
+  | iso (ms : Int)
+  | lit (s : Str)
+  | fallback (ms : Int)
+deriving DecidableEq, Repr
+
 structure TurnIn where
   agent : Str
   turn : Str
-  nowMs : Int
+  nowMs : Option Int           -- ctx.now_ms (none: None / not an int-convertible clock)
+  isoPreset : Option IsoAttr   -- ctx.now_iso as supplied by the caller for this turn (none: not supplied)
   dry : Bool                   -- ctx._dry_run_until_t4
   t4on : Bool                  -- t4.enabled (the dry-run return sits inside the T4 block)
   planFlag : Bool              -- plan.reflection
@@ -186,7 +204,7 @@ deriving DecidableEq, Repr
 /-- What survives on a (possibly reused) ctx between turns. -/
 structure CtxSt where
   stash : Option RResult       -- ctx._reflection_result
-  nowIso : Option Int          -- ms that ctx.now_iso was derived from (set once, never refreshed)
+  nowIso : Option IsoAttr      -- ctx.now_iso (none: attribute absent); set once, never refreshed
 deriving DecidableEq, Repr
 
 def CtxSt.fresh : CtxSt := ⟨none, none⟩
@@ -285,20 +303,20 @@ structure Written where
   slot : Nat
   idText : Str
   text : Str
-  tsMs : Int
+  ts : Ts
   vec : Bool
 deriving DecidableEq, Repr
 
-def addLoop (agent turn : Str) (tsMs : Int) : Nat → List Entry → List Bool → List Written
+def addLoop (agent turn : Str) (tsMs : Ts) : Nat → List Entry → List Bool → List Written
   | _, [], _ => []
   | i, e :: es, fs =>
     let rest := addLoop agent turn tsMs (i + 1) es fs.tail
     if fs.headD false then rest
     else { agent := agent, turn := turn, slot := i, idText := e.text, text := strip e.text,
-           tsMs := tsMs, vec := e.vec } :: rest
+           ts := tsMs, vec := e.vec } :: rest
 
 /-- The write step of the tail + `write_reflection_entries`. -/
-def writeEntries (t : TurnIn) (o : Oracles) (tsMs : Int) (res : RResult) : List Written :=
+def writeEntries (t : TurnIn) (o : Oracles) (tsMs : Ts) (res : RResult) : List Written :=
   if res.entries.isEmpty then []
   else if o.writeFault then []
   else match t.cfg.opsCap with
@@ -307,6 +325,34 @@ def writeEntries (t : TurnIn) (o : Oracles) (tsMs : Int) (res : RResult) : List 
       if cap ≤ 0 then []
       else if o.indexMissing then []
       else addLoop t.agent t.turn tsMs 0 (res.entries.take cap.toNat) o.addFail
+
+/-- `ctx.now_iso` after the head of `run_turn`: the caller's value for this turn if any, else what a
+previous turn left on a reused ctx, else derived from `now_ms` when that is an int. -/
+def headIso (c : CtxSt) (t : TurnIn) : Option IsoAttr :=
+  match t.isoPreset with
+  | some p => some p
+  | none =>
+    match c.nowIso with
+    | some a => some a
+    | none => t.nowMs.map IsoAttr.derived
+
+/-- `_now_iso_from_ctx`: `int(ctx.now_ms)` is evaluated first (raises on `None`: `none`), then a string
+`now_iso` wins, else the epoch fallback of `now_ms`. -/
+def tsOf (iso : Option IsoAttr) (nowMs : Option Int) : Option Ts :=
+  match nowMs with
+  | none => none
+  | some ms =>
+    match iso with
+    | some (.derived m) => some (.iso m)
+    | some (.lit s) => some (.lit s)
+    | _ => some (.fallback ms)
+
+/-- The writer with its timestamp step: when `_now_iso_from_ctx` raises, the tail's `except` swallows it
+and nothing is written. -/
+def writeEntriesAt (t : TurnIn) (o : Oracles) (ts : Option Ts) (res : RResult) : List Written :=
+  match ts with
+  | none => []
+  | some x => writeEntries t o x res
 
 structure LogRec where
   summaryLen : Nat
@@ -339,10 +385,10 @@ def stashAfter (clear : Bool) (c : CtxSt) (t : TurnIn) (o : Oracles) : Option RR
   | none => if clear then none else c.stash
 
 /-- The write + telemetry steps on whatever is stashed on the ctx after the gate call. -/
-def tailOut (t : TurnIn) (o : Oracles) (ts : Int) (called : Bool) : Option RResult → TurnOut
+def tailOut (t : TurnIn) (o : Oracles) (ts : Option Ts) (called : Bool) : Option RResult → TurnOut
   | none => { reached := true, called := called, written := [], log := none }
   | some res =>
-    { reached := true, called := called, written := writeEntries t o ts res, log := logOf t o res }
+    { reached := true, called := called, written := writeEntriesAt t o ts res, log := logOf t o res }
 
 def notReached : TurnOut := { reached := false, called := false, written := [], log := none }
 
@@ -350,10 +396,10 @@ def notReached : TurnOut := { reached := false, called := false, written := [], 
 dropped before the gate call); `clear = false` is the code as found.  The head of `run_turn` derives
 `ctx.now_iso` from `now_ms` once (`if not hasattr(ctx, "now_iso")`). -/
 def tail (clear : Bool) (c : CtxSt) (t : TurnIn) (o : Oracles) : CtxSt × TurnOut :=
-  if t.dry && t.t4on then (⟨c.stash, some (c.nowIso.getD t.nowMs)⟩, notReached)
+  if t.dry && t.t4on then (⟨c.stash, headIso c t⟩, notReached)
   else
-    (⟨stashAfter clear c t o, some (c.nowIso.getD t.nowMs)⟩,
-     tailOut t o (c.nowIso.getD t.nowMs) (gateCall t o).isSome (stashAfter clear c t o))
+    (⟨stashAfter clear c t o, headIso c t⟩,
+     tailOut t o (tsOf (headIso c t) t.nowMs) (gateCall t o).isSome (stashAfter clear c t o))
 
 /-- A history of turns over one ctx (`reuse`) or a fresh ctx per turn. -/
 def runHist (clear reuse : Bool) : CtxSt → List (TurnIn × Oracles) → List TurnOut
